@@ -742,6 +742,12 @@ def produce(fa, req, nsamples, nieee, seed):
         return dict(req=req, status="declined", why="%s: %s" % (type(ex).__name__, str(ex)[:120]))
     proj, exprs = P.project(g)
     res.update(text=text, proj=proj)
+    renamed = [str(a.operands[0]) for a in g.operands[1:-1] if a.kind == "symbol" and a.ref != str(a.operands[0])]
+    if renamed:
+        # an expression named by .reference() was rewritten to an argument and the name moved onto the argument:
+        # reported as such, nothing else is judged
+        res.update(param_mismatch=True, status="param_mismatch", samples=[], prog=dict(params=[], stmts=[], rows=[], ret=""), wild={}, loads=True)
+        return res
     if any(p["t"] == "list" for p in proj["params"]) or any(n["k"] in ("list", "item") or n["t"].startswith("list") for n in proj["nodes"]):
         return dict(req=req, status="build_skip", why="list-valued program")
     tabs = wild_tables(fa)[tname]
@@ -1111,7 +1117,7 @@ def static_keys(r, triples):
             # which node type has no such constant: summarise by the types of constant nodes in the graph
             detail += "@" + "+".join(sorted({n["t"] for n in r["proj"]["nodes"] if n["k"] == "constant"}))
         elif clause == "distinct_share":
-            detail = "variable " + str(what)
+            detail = "variable " + ("constant_<value>" if str(what).startswith("constant_") else str(what))
         elif clause in ("operator", "operand_order"):
             detail = str(what)
         elif clause in ("def_before_use", "single_assignment", "assert_target", "declared_type"):
@@ -1124,6 +1130,10 @@ def static_keys(r, triples):
     return out
 
 
+PRIMARY = ["float32 computed with double literals", "integer literals computed in int", "complex constant printed as a real literal",
+           "constants share a generated name"]
+
+
 def root_cause(key):
     """static failure key -> tag used to attribute execution differences"""
     t, clause, detail = key.split(":", 2)
@@ -1134,6 +1144,8 @@ def root_cause(key):
             return "complex constant printed as a real literal"
         if re.fullmatch(r"float\d+ as int", detail):
             return "integer literals computed in int"
+    if clause == "distinct_share" and detail == "variable constant_<value>":
+        return "constants share a generated name"
     return "%s:%s" % (clause, detail)
 
 
@@ -1222,7 +1234,11 @@ def collect(chk, order, res, path_hint=None):
                 explained = sorted({root_cause(k) for k in skeys})
                 if s["out"]["c"] == "raise" and s["out"]["fmt"] == "AssertionError" and tname == "numpy" and not explained:
                     explained = ["debug dtype assertion fails"]
-                key = ("%s:%s:explained_by:%s" % (tname, clause, "+".join(explained))) if explained else \
+                if not explained and any(row["o"] == "lit" and row["s"] == "imag" for row in r["prog"]["rows"]) and zero_sign_only(s["out"], s["ref"]):
+                    explained = ["complex literal loses the sign of a zero part"]
+                # one primary explanation (bounded number of classes): the static failures themselves are all reported above
+                explained.sort(key=lambda tag: (not tag.startswith("def_before_use"), tag not in PRIMARY, PRIMARY.index(tag) if tag in PRIMARY else 0, tag))
+                key = ("%s:%s:explained_by:%s" % (tname, clause, explained[0])) if explained else \
                     "%s:%s:%s" % (tname, clause, program_class(r))
                 chk.fail(key, "%s: input %s: executed %s, direct evaluation %s" % (describe(req), [repr(x) for x in inp], show(s["out"]), show(s["ref"])),
                          dict(base, sample=j, input=[repr(x) for x in inp], out=s["out"], ref=s["ref"]))
@@ -1245,6 +1261,18 @@ def collect(chk, order, res, path_hint=None):
                 print("DUMP %s\n%s\n%s\n%s" % (key, json.dumps(rp.get("request")), rp.get("text"), what[:1500]))
 
 
+def zero_sign_only(a, b):
+    """two complex results that differ only in the sign of zero components"""
+    if a["c"] != "z" or b["c"] != "z" or a["fmt"] != b["fmt"]:
+        return False
+    w = bits.WIDTH[a["fmt"]]
+
+    def same(x, y):
+        xi, yi = bits.unnat(x), bits.unnat(y)
+        return xi == yi or (xi & ~(1 << (w - 1))) == 0 == (yi & ~(1 << (w - 1)))
+    return same(a["bits"], b["bits"]) and same(a["im"], b["im"])
+
+
 def set_items(v):
     return v["__set__"] if isinstance(v, dict) and "__set__" in v else v
 
@@ -1264,6 +1292,9 @@ def load_class(r):
     e = r.get("load_error", "")
     if "(const char*) noexcept" in e:
         return "a NaN constant is printed as the identifier `nan` (the function std::nan)"
+    m = re.match(r"request for member ‘(\w+)’ in ", e)
+    if m:
+        return "request for member `%s` in an expression of non-class (real) type" % m.group(1)
     e = re.sub(r"\(.*?\)", "()", e)
     e = re.sub(r"(std::complex<\w+>|\b(long double|double|float|int|long|bool)\b)&?", "T", e)
     e = re.sub(r"\d+", "N", e)
